@@ -139,6 +139,9 @@ Definition graph_spec (w : world) (dl : nat -> list decl) (erl nograph univ : li
 (* a "calls"-type graph of a and the matching "called by"-type graph of b agree on the arrow a -> b *)
 Definition has_arrow (a b : nat) (es : list edge) : bool :=
   existsb (fun e => Nat.eqb (e_tail e) a && Nat.eqb (e_head e) b) es.
+(* labels of the arrows a -> b (component names on composition arrows) *)
+Definition arrow_labels (a b : nat) (es : list edge) : list str :=
+  map e_lab (filter (fun e => Nat.eqb (e_tail e) a && Nat.eqb (e_head e) b) es).
 Definition inverse_class (c : gclass) : option gclass :=
   match c with GUses => Some GUsedBy | GInherits => Some GInheritedBy | GCalls => Some GCalledBy
              | GEff => Some GAff | _ => None end.
@@ -159,7 +162,8 @@ Definition inverse_pairs_ok (r : run_t) : bool :=
         | [b] =>
           if gclass_eqb (q_class (fst qj)) ci then
             if hop1_present (snd qi) && hop1_present (snd qj)
-            then Bool.eqb (has_arrow a b (i_edges (snd qi))) (has_arrow a b (i_edges (snd qj)))
+            then Bool.eqb (has_arrow a b (i_edges (snd qi))) (has_arrow a b (i_edges (snd qj))) &&
+                 list_eqb str_eqb (arrow_labels a b (i_edges (snd qi))) (arrow_labels a b (i_edges (snd qj)))
             else true
           else true
         | _ => true
